@@ -15,7 +15,7 @@ CHECKS = {
     "C14": dict(
         engine="E1 SymArray (z3)",
         cat=TV,
-        text="set_at/add_at/subtract_at executed for real on symbolic target/update/coordinate tensors; z3 proves the per-position statement of the property for all contents and all in-range coordinates incl. duplicates; round trip get_at(set_at) decided the same way.",
+        text="set_at/add_at/subtract_at executed for real on symbolic target/update/coordinate tensors; z3 proves the per-position statement of the property for all contents and all in-range coordinates incl. duplicates; round trip get_at(set_at) decided the same way. Update tensors may be of dtype uint8 (8-bit bit-vector elements: same-width arithmetic wraps, mixing with integers promotes the value); indexed target axes may share a name.",
         note="Trusted: symbolic store model of np.put/np.add.at/np.subtract.at (self-tested vs numpy incl. cycling), z3. Target <= 24 elements, <= 8 update slots (quick).",
         tech="symbolic execution of real code with symbolic scatter indices + SMT validity query",
         ref="DESIGN.md §3 C14",
@@ -42,7 +42,7 @@ CHECKS.update({
     "C09": dict(
         engine="E1 SymArray (z3 over aliasing)",
         cat=TV,
-        text="Every argument (and its base buffer) is snapshotted cell-wise before the real call on SymArrays in 5 memory layouts (contiguous, transposed view, sliced view, stride-0 broadcast view, read-only); afterwards z3 decides whether any protected cell can differ for some contents/coordinates. Views are numpy's real views, stores go through the symbolic store model. Objects passed as sizes/options (lists, tuples, numpy arrays and scalars) are compared concretely: contents, type, shape, dtype and flags.",
+        text="Every argument (and its base buffer) is snapshotted cell-wise before the real call on SymArrays in 5 memory layouts (contiguous, transposed view, sliced view, stride-0 broadcast view, read-only); afterwards z3 decides whether any protected cell can differ for some contents/coordinates. Views are numpy's real views, stores go through the symbolic store model. Objects passed as sizes/options (lists, tuples, numpy arrays and scalars) are compared concretely: contents, type, shape, dtype and flags. A concrete shadow run on plain numpy arrays in the same layouts validates the symbolic write-set (and is bug-finding only where the symbolic run is cut short by a comparison inside numpy's C code).",
         note="Trusted: object-dtype buffers share numpy's view/copy semantics; symbolic store model; z3. dtype itself is not varied. Family bounds as C01.",
         tech="symbolic execution of real code with alias-preserving buffers + SMT query on cell changes",
         ref="DESIGN.md §3 C09",
@@ -58,7 +58,7 @@ CHECKS.update({
     "C15": dict(
         engine="E1 SymArray + E2 RefSem with uninterpreted functions (z3)",
         cat=TV,
-        text="The user function wrapped by adapt_numpylike_reduce / adapt_numpylike_elementwise is an UNINTERPRETED z3 function of the ordered sub-tensor (and keyword-only option); RefSem uses the same function as elementary operation, so each unsat holds for every user function of that arity. Arguments received (axis tuple, ranks, keywords across cache hits) and misbehaving functions are monitored concretely.",
+        text="The user function wrapped by adapt_numpylike_reduce / adapt_numpylike_elementwise is an UNINTERPRETED z3 function of the ordered sub-tensor (and keyword-only option); RefSem uses the same function as elementary operation, so each unsat holds for every user function of that arity; option values enter it together with their Python type (2, 2.0, True are different arguments). Arguments received (axis tuple, ranks, keywords across cache hits) and misbehaving functions are monitored concretely.",
         note="adapt_with_vmap is outside (no vmap-capable framework installed). Sub-tensor <= 9 elements, <= 3 element-wise inputs.",
         tech="symbolic execution with uninterpreted user function + SMT validity (EUF+LIA)",
         ref="DESIGN.md §3 C15",
@@ -107,7 +107,7 @@ CHECKS.update({
     "C12": dict(
         engine="E3 CrossHair",
         cat="other",
-        text="CrossHair (z3-driven) executes the real stage1.parse_op, the real __str__ of the tree classes and the real el_op re-parsing of all operation families over token/chunk sequences selected by symbolic integers: totality with caller-quoting SyntaxErrors, invariance under redundant spaces (between chunks, and at two symbolic redundant-gap positions inside each of 40 valid corpus descriptions), re-print stability. 'Confirmed over all paths' is exhaustive per alphabet and length. Arbitrary-character strings (symbolic str) are bug-finding only.",
+        text="CrossHair (z3-driven) executes the real stage1.parse_op, the real __str__ of the tree classes and the real el_op re-parsing of all operation families over token/chunk sequences selected by symbolic integers: totality with caller-quoting SyntaxErrors, invariance under redundant spaces (between chunks, and at two symbolic redundant-gap positions inside each of 40 valid corpus descriptions), re-print stability; public operations hand the caller's description to the parser verbatim (spy on the parser, whitespace alphabet incl. tab/newline/NBSP). 'Confirmed over all paths' is exhaustive per alphabet and length. Arbitrary-character strings (symbolic str) are bug-finding only.",
         note="Bounds: 13 tokens^3, 9 tokens^4, 17 chunks^2, 12 chunks^3, 8 chunks^3 x 3 spacing flags (quick); larger in thorough. Nothing is claimed beyond the alphabets.",
         tech="CrossHair symbolic execution of the real parser and printer (exhaustive path confirmation)",
         ref="DESIGN.md §3 C12",
@@ -118,7 +118,7 @@ CHECKS.update({
     "C11": dict(
         engine="E3 CrossHair",
         cat="other",
-        text="CrossHair executes the real BackendRegistryState (_get, _get_by_name, _get_by_tensors, _register_on_import, _check_new_imports, _run_factory, _enter/_exit) on registries of synthetic Backend/InvalidBackend objects; priorities are symbolic unbounded integers (all values and ties) and the argument-type tuple is a symbolic selector; configurations, registration orders, lazy/eager registration with imported/not-imported modules, failing factories and one-step histories are enumerated one condition each; the two synthetic frameworks' tensor classes share their bare class name. The result must equal a short specification transcribed from the documentation.",
+        text="CrossHair executes the real BackendRegistryState (_get, _get_by_name, _get_by_tensors, _register_on_import, _check_new_imports, _run_factory, _enter/_exit) on registries of synthetic Backend/InvalidBackend objects; priorities are symbolic unbounded integers (all values and ties) and the argument-type tuple is a symbolic selector; configurations, registration orders, lazy/eager registration with imported/not-imported modules, failing factories and one-step histories are enumerated one condition each; the two synthetic frameworks' tensor classes share their bare class name; histories are stepped with the transaction semantics of BackendRegistry.get (state.get on a copy that replaces the state only on success), including failing lookups. The result must equal a short specification transcribed from the documentation.",
         note="Real framework imports are outside (not installed); sys.modules is stubbed by pre-seeding seen_module_names. 57 conditions (quick).",
         tech="CrossHair symbolic execution of the real registry state machine against a specification function",
         ref="DESIGN.md §3 C11",
@@ -129,7 +129,7 @@ CHECKS.update({
     "C06": dict(
         engine="E3 CrossHair (key collisions) + cold/warm replay",
         cat="other",
-        text="PARTIAL. Reduction: a warm call differs from a cold one only if two calls with equal cache keys have different cold outcomes, or a failing call leaves state behind. CrossHair searches einx's real key path (_freeze_args/_freeze_value + functools._make_key) for argument pairs of different type that share a key; every pair found (and the CPython-equal representatives 2/2.0, 1/True, 1.0/True) is replayed through the public API in every argument slot, both orders, with and without graph=True: second call in a fresh interpreter vs. after the first call. Failing calls at parse/solve/trace/run time are followed by a valid call and compared the same way, including context-stack depths; context histories (plain call, then the call inside another backend context) and factory histories (short-lived factory objects of 6-9 signature kinds, one kind after the other) are compared cold vs. warm.",
+        text="PARTIAL. Reduction: a warm call differs from a cold one only if two calls with equal cache keys have different cold outcomes, or a failing call leaves state behind. CrossHair searches einx's real key path (_freeze_args/_freeze_value + functools._make_key) for argument pairs of different type that share a key; every pair found (and the CPython-equal representatives 2/2.0, 1/True, 1.0/True) is replayed through the public API in every argument slot, both orders, with and without graph=True: second call in a fresh interpreter vs. after the first call. Failing calls at parse/solve/trace/run time are followed by a valid call and compared the same way, including context-stack depths; context histories (plain call, then the call inside another backend context) and factory histories (short-lived factory objects of 6-9 signature kinds, one kind after the other) and constant histories (adapted user functions: compile A, compile B, call A again) are compared cold vs. warm.",
         note="CrossHair cannot confirm absence of collisions (hash/== realise symbolic values): no counterexample = inconclusive. Arbitrary long histories are covered only through the reduction; compilation determinism is C16's subject.",
         tech="CrossHair counterexample search over the real cache-key functions + differential cold/warm replay",
         ref="DESIGN.md §3 C06",
@@ -140,7 +140,7 @@ CHECKS.update({
     "C10": dict(
         engine="E4 z3 bounded model checking",
         cat="model_checking",
-        text="PARTIAL (registry and tracing context stack). The read/compute/write micro-steps of BackendRegistry are re-derived from the AST of backend.py at every run (which methods hold the lock, read and write self.state); 2-3 threads run short programs of get / enter / exit / register; the schedule is a vector of symbolic thread ids; z3 searches for a schedule whose per-call observations and final state match no interleaving of whole calls (linearizability). The abstract call semantics are validated against the real BackendRegistryState on all small states; a sat schedule is replayed with real threads gated at the read/write boundaries. The tracing context stack (tracer.graph.depend_on) is classified per-thread/shared from the AST, the classification is validated with two real threads, and z3 searches the push/read/pop interleavings of two calls for a read that sees another call's entry; sat schedules are replayed through the public API with gated threads.",
+        text="PARTIAL (registry and tracing context stack). The read/compute/write micro-steps of BackendRegistry are re-derived from the AST of backend.py at every run (which methods hold the lock, read and write self.state); 2-3 threads run short programs of get / enter / exit / register; the schedule is a vector of symbolic thread ids; z3 searches for a schedule whose per-call observations and final state match no interleaving of whole calls (linearizability). The abstract call semantics are validated against the real BackendRegistryState on all small states; a sat schedule is replayed with real threads gated at the read/write boundaries. The tracing context stack (tracer.graph.depend_on) is classified per-thread/shared from the AST, the classification is validated with two real threads, and z3 searches the push/read/pop interleavings of two calls for a read that sees another call's entry; sat schedules are replayed through the public API with gated threads. The same two-call model is applied to every object that outlives a call and is mutated inside a function without a lock (module-level containers, mutable default arguments, global rebinding; found from the AST of all modules), replayed over all ordered pairs of a pool of first-time calls.",
         note="Assumed: functools.cache atomic per call; device/namespace stacks of the torch/array-api adapters are outside (frameworks not installed). Bounds: 2 threads (3 thorough), <= 4 calls each, with-stack depth 4.",
         tech="SMT-based bounded model checking of thread interleavings (linearizability) + gated-thread replay",
         ref="DESIGN.md §3 C10",
